@@ -29,6 +29,10 @@ type c14uCase struct {
 	// a full send buffer - a congested path - while client 0 sends the rest of its datagrams and the other clients
 	// theirs; then it recovers. Nothing is closed and no error occurs anywhere.
 	Stall int
+	// SrcIPs (optional, per proxy client): the loopback address the client sends from; with SharePort all of them use the
+	// same source port (distinct hosts that happen to use one port number, as fixed-port UDP applications do)
+	SrcIPs    []string `json:",omitempty"`
+	SharePort bool     `json:",omitempty"`
 }
 
 func c14uPayload(clientIdx, k, n int) []byte {
@@ -111,9 +115,24 @@ func c14uRun(sc c14uCase) (vk.Result, error) {
 	var wg sync.WaitGroup
 	total := 0
 	for i, sizes := range sc.Clients {
-		c, err := net.DialUDP("udp", nil, ckAddr)
+		var laddr *net.UDPAddr
+		if i < len(sc.SrcIPs) && sc.SrcIPs[i] != "" {
+			laddr = &net.UDPAddr{IP: net.ParseIP(sc.SrcIPs[i])}
+			if sc.SharePort && i > 0 && clis[0] != nil {
+				laddr.Port = clis[0].conn.LocalAddr().(*net.UDPAddr).Port
+			}
+		}
+		c, err := net.DialUDP("udp", laddr, ckAddr)
+		if err != nil && laddr != nil {
+			// the port is taken on that address (or the address cannot be used here): any port will do
+			laddr = nil
+			c, err = net.DialUDP("udp", nil, ckAddr)
+		}
 		if err != nil {
 			return res, fmt.Errorf("harness: %v", err)
+		}
+		if laddr != nil && laddr.Port != 0 {
+			res.Labels = append(res.Labels, "clients-on-different-addresses-sharing-a-port")
 		}
 		p := &pcli{conn: c}
 		clis[i] = p
@@ -323,6 +342,12 @@ func TestVerif_C14_UDPRig(t *testing.T) {
 				}
 				sc.Clients = append(sc.Clients, l)
 			}
+		}
+		if rapid.IntRange(0, 2).Draw(rt, "addrs") == 0 && len(sc.Clients) >= 2 {
+			// proxy clients on different (loopback) hosts, all using the same source port
+			ips := rapid.Permutation([]string{"127.0.0.1", "127.1.0.1", "127.0.1.1", "127.1.1.1", "127.2.0.1", "127.0.0.2"}).Draw(rt, "ips")
+			sc.SrcIPs = ips[:min(len(ips), len(sc.Clients))]
+			sc.SharePort = rapid.IntRange(0, 3).Draw(rt, "shareport") > 0
 		}
 		return sc
 	}, c14uRun)
